@@ -117,6 +117,15 @@ def conv_cfgs(ctx, files, rng):
     c["mono"] = [(1 if s == 2 else 0) for s in sizes]
     c.update({"iters": 1, "strict": False})
     cfgs.append(c)
+  # rank 3: two trusts of the same kind sharing their conditional (or main) feature, either direction - each trust
+  # keeps its own Dykstra correction
+  for fam in ("trap", "edge"):
+    for t1, t2 in (([1, 3, 1], [2, 3, 1]), ([1, 3, 1], [2, 3, -1]), ([1, 2, 1], [1, 3, -1])):
+      c = latcfg.base([2, 2, 2])
+      c["mono"] = [1, 1, 0] if t1[0] != t2[0] else [1, 0, 0]
+      c[fam] = [t1, t2]
+      c.update({"iters": 1, "strict": False})
+      cfgs.append(c)
   # random family mixes on small lattices
   n = 6 if ctx.quick else 80
   while n > 0:
